@@ -20,18 +20,21 @@ from .c07 import all_shapes
 LEVEL = "proof"
 CLAIM = dict(
     category="proof",
-    text="Theorems in DarsiaProps.C06 for every shape / voxel sizes / flux / field: the assembled divergence matrix applied to a "
-    "flux is each cell's net outflow (area x flux, oriented lower->higher index, zero on the outer boundary); every column "
-    "sums to zero so total divergence vanishes; divergence is the negative adjoint of the area-weighted face difference; mass "
-    "matrices are vol*I; face_to_cell is the linear interpolation pt*u_hi+(1-pt)*u_lo with the face value at the face from "
-    "both sides (normal continuity), the mean at the centre, zero on the boundary; arithmetic/harmonic face averages; "
-    "for vector / tensor cell quantities the component / diagonal entry of the face's normal axis is the one averaged "
-    "(c2f_component_selection, other entries are never read); tangential reconstruction reproduces constants exactly on the "
-    "code's interior faces. Tie: exact equality model = "
-    "implementation on all 186 shapes x dyadic voxel sizes x dyadic data for every operator.",
-    note="scipy.sparse assembly (duplicates summed) and numpy slicing are modelled pointwise and tied by the exact dense "
-    "correspondence; harmonic mean compared to 4 ulp (scipy hmean divides).",
-    technique="Lean 4 proof (finite sums by induction, indicator sums over the numbering bijection) + exhaustive-in-range exact correspondence",
+    text="Theorems in DarsiaProps.C06 for every shape / voxel-size list / flux / field (the code only builds grids passing gridGuard: dims 1-3, "
+    "extents >= 1, len(voxel_size) = dim). OPERATIONAL models proved equal to the pointwise ones: the divergence matrix as the code assembles it "
+    "(2*num_faces COO triplets summed, div_assembled_eq) and face_to_cell as coded (zeros + two slice accumulations per component, "
+    "face_to_cell_table_eq); on these: div U = each cell's net outflow (div_is_net_outflow), every column sums to zero, total divergence "
+    "vanishes, divergence is the negative adjoint of the area-weighted face difference, the reconstruction takes the face value at the face "
+    "from both sides, the mean at the centre, zero on the boundary; harmonic mean 2xy/(x+y) for positive data, 0 with a zero, NaN with a "
+    "negative neighbour, below the arithmetic mean; tangential reconstruction reproduces constants on the code's interior faces. Definitional "
+    "restatements (marked as such in the Lean file, their content is the tie): mass = vol*I, arithmetic mean, component selection "
+    "(vector component a / tensor diagonal a,a), shape dispatch table, full reconstruction keeps the normal component. Tie: exact equality "
+    "model = implementation on all 186 shapes x dyadic voxel sizes x dyadic data for every operator, the driver evaluating the operational "
+    "tables (assembled matrix for the smaller grids, accumulated reconstruction always), all forms of the voxel-size argument, the shape "
+    "dispatch of cell_to_face_average incl. rejected layouts, zero / negative data for the harmonic mean.",
+    note="scipy.sparse assembly and numpy slice += are modelled as accumulation through index arrays (accumN); numpy slicing + ravel('F') of the "
+    "index arrays pointwise; harmonic mean compared to 4 ulp (scipy hmean divides); in 1-D the dispatch is observable only as accepted/rejected.",
+    technique="Lean 4 proof (finite sums by induction, indicator sums over the numbering bijection, accumulation lemmas) + exhaustive-in-range exact correspondence",
 )
 
 DYADIC_H = [0.25, 0.5, 0.75, 1.0, 1.5, 2.0, 3.0]
@@ -264,7 +267,9 @@ def run(ctx):
     n_h = ctx.pick(1, 3)
     n_fields = ctx.pick(1, 3)
     dense_cap = ctx.pick(6000, 10 ** 9)
+    asm_cap = ctx.pick(250, 700)
     lines, impl = [], []
+    one_d_accept = []
     hlines, himpl_vals = [], []
 
     def add(line, fn):
@@ -283,7 +288,10 @@ def run(ctx):
             nf, nc = int(g.num_faces), int(g.num_cells)
             S, H = shape_tok(shape), lst(hs)
             if nf * nc <= dense_cap:
-                add(f"divmat {S} {H}", lambda: impl_divmat(d, g))
+                add(f"divmat {S} {H} 0", lambda: impl_divmat(d, g))
+            if nf * nc <= asm_cap:
+                # the matrix as the code assembles it (COO triplets summed): operational model `divAssembled`
+                add(f"divmat {S} {H} 1", lambda: impl_divmat(d, g))
             add(f"mass {S} {H}", lambda: impl_mass(d, g))
             for _ in range(n_fields):
                 U = dy(rng, nf)
@@ -291,10 +299,13 @@ def run(ctx):
                 add(f"div {S} {H} {lst(U)} {dense}", lambda: impl_div(d, g, U))
                 pt = np.array([rng.choice((0.0, 0.25, 0.5, 1.0, rng.randint(0, 16) / 16)) for _ in range(dim)])
                 add(f"f2c {S} {lst(pt)} {lst(U)}", lambda: impl_f2c(d, g, U, pt if dim > 1 else float(pt[0])))
+                if dim == 1:  # the 1-D evaluation point given as a length-1 array instead of a float
+                    add(f"f2c {S} {lst(pt)} {lst(U)}", lambda: impl_f2c(d, g, U, np.array([float(pt[0])])))
                 add(f"tang {S} {lst(U)}", lambda: sep([rats(t) for t in d.FVTangentialFaceReconstruction(g)(U, False)]))
                 add(f"full {S} {lst(U)}", lambda: rats(d.FVFullFaceReconstruction(g)(U)))
                 kind = rng.choice(kinds_for(dim))
-                comps = [np.array([rng.randint(0 if kind != "tensor" else 1, 24) / 4 for _ in range(nc)]) for _ in range(dim)]
+                lo_val = rng.choice((1, 0, 0, -3))  # zeros (harmonic mean 0) and negatives (harmonic mean NaN) included
+                comps = [np.array([rng.randint(lo_val, 24) / 4 for _ in range(nc)]) for _ in range(dim)]
                 if kind.startswith("scalar"):
                     comps = [comps[0]] * dim
                 q = build_q(g, kind, comps, rng)
@@ -316,6 +327,7 @@ def run(ctx):
     # every accepted form of the voxel-size argument: scalar float / int, default, list, tuple, ndarray (the model gets the
     # per-axis list the documentation promises: a scalar h means h in every direction)
     forms = 0
+    form_stats = {}
     for shape in [(3,), (3, 4), (1, 5), (2, 3, 2), (4, 1, 2)] + [tuple(rng.randint(1, 4) for _ in range(rng.choice((2, 3)))) for _ in range(ctx.pick(4, 20))]:
         dim = len(shape)
         hv = rng.choice((0.25, 0.5, 2.0, 1.5))
@@ -324,7 +336,9 @@ def run(ctx):
                              ("ndarray", np.array(aniso), aniso), ("tuple", tuple(aniso), aniso)):
             g = call(d.Grid, tuple(shape)) if arg is None else call(d.Grid, tuple(shape), arg)
             rp = {"shape": list(shape), "voxel_size_argument": tag, "value": None if arg is None else np.asarray(arg).tolist()}
+            form_stats.setdefault(tag, [0, 0])[0] += 1
             if isinstance(g, Raised):
+                form_stats[tag][1] += 1
                 if tag in ("scalar", "int", "default", "list"):
                     ctx.fail(f"C06:Grid:voxel_size={tag}:raises:dim={dim}", f"Grid({shape}, voxel_size={rp['value']}) raises {g}", rp)
                 continue
@@ -332,7 +346,7 @@ def run(ctx):
             ctx.count(("vs-form", shape, tag, tuple(hs)))
             S, H = shape_tok(shape), lst(hs)
             U = dy(rng, int(g.num_faces))
-            add(f"divmat {S} {H}", lambda: impl_divmat(d, g))
+            add(f"divmat {S} {H} 1", lambda: impl_divmat(d, g))
             add(f"mass {S} {H}", lambda: impl_mass(d, g))
             add(f"div {S} {H} {lst(U)} 1", lambda: impl_div(d, g, U))
             # statement on the implementation: mass = prod of the per-axis voxel sizes
@@ -347,35 +361,83 @@ def run(ctx):
             except Exception as e:  # noqa: BLE001
                 ctx.fail(f"C06:mass_diag:raises:voxel_size={tag}:dim={dim}", f"{type(e).__name__}: {e}", rp)
     ctx.cov["voxel_size_argument_forms"] = forms
+    ctx.cov["voxel_size_argument_forms_tried_raised"] = form_stats
+    for tag, (tried, raised) in form_stats.items():
+        if tried and raised == tried:
+            # a form that is rejected in EVERY case is not "covered": say so loudly (undocumented forms: ndarray, tuple)
+            ctx.notes.append(f"voxel_size form '{tag}' raised in all {tried} cases - not exercised")
+            ctx.log(f"NOTE voxel_size form '{tag}' raised in all {tried} cases")
+    # dispatch of cell_to_face_average on cell_qty.shape (scalar / vector / tensor / NotImplementedError)
+    for dim, gshape in ((1, (3,)), (2, (2, 3)), (3, (2, 2, 2))):
+        g = call(d.Grid, gshape, [1.0] * dim)
+        if isinstance(g, Raised):
+            continue
+        for tr in ([], [1], [dim], [dim, dim], [dim + 1], [1, 1], [dim, dim, 1], [dim, 1], [2], [3], [dim + 1, dim + 1]):
+            q = np.zeros(tuple(gshape) + tuple(tr))
+            q[...] = 1 + np.arange(int(np.prod(tr)) if tr else 1).reshape(tr if tr else ())
+            r = call(d.cell_to_face_average, g, q, "arithmetic")
+            if isinstance(r, Raised):
+                obs = repr(r)
+            else:
+                vals = np.asarray(r).ravel()
+                ax = np.array([face_axis(g, f) for f in range(int(g.num_faces))])
+                if dim == 1:
+                    obs = None  # every reading gives the same number in 1-D: only accepted / rejected is observable
+                elif np.array_equal(vals, np.ones(len(vals))):
+                    obs = "scalar"
+                elif np.array_equal(vals, 1.0 + ax):
+                    obs = "vector"
+                elif np.array_equal(vals, 1.0 + ax * dim + ax):
+                    obs = "tensor"
+                else:
+                    obs = "!unrecognised"
+            lines.append(f"c2fshape {dim} {len(tr)} " + " ".join(map(str, tr)))
+            if obs is None:
+                # 1-D: replace the model's kind by "accepted"
+                impl.append("accepted")
+                one_d_accept.append(len(lines) - 1)
+            else:
+                impl.append(obs)
+    # 1-D dispatch lines: the model's kind is only observable as "accepted"
+    got_1d = ctx.model([lines[i] for i in one_d_accept]) if one_d_accept else []
+    for i, gm in zip(one_d_accept, got_1d):
+        if not gm.strip().startswith("!"):
+            impl[i] = gm.strip()  # accepted by both: equal by construction; a rejection by the model shows as a difference
     ctx.correspond("fv-operators-exact", lines, impl)
 
     # harmonic mean: numeric comparison (scipy's hmean divides, so not exact even on dyadic data)
     got = ctx.model(hlines)
     worst = 0.0
     bad = 0
+    nan_seen = 0
     for line, m, r in zip(hlines, got, himpl_vals):
         ctx.count(("harm", line))
         if isinstance(r, Raised):
             bad += 1
             first = (line, m, repr(r))
             continue
-        try:
-            mv = [frac(t) for t in m.split()] if m.strip() else []
-        except Exception:  # noqa: BLE001
-            mv = None
-        rv = [frac(float(x)) for x in np.asarray(r).ravel()]
-        if mv is None or len(mv) != len(rv):
+        toks = m.split()
+        rv = [float(x) for x in np.asarray(r).ravel()]
+        if len(toks) != len(rv) or any(t.startswith("!") for t in toks):
             bad += 1
             first = (line, m, str(len(rv)))
             continue
-        for a, b in zip(mv, rv):
-            err = float(abs(a - b) / a) if a != 0 else (0.0 if b == 0 else float("inf"))
+        for t, b in zip(toks, rv):
+            if t == "nan" or b != b:
+                if not (t == "nan" and b != b):
+                    bad += 1
+                    first = (line, m, " ".join("nan" if x != x else fmt(x) for x in rv))
+                    break
+                nan_seen += 1
+                continue
+            a = frac(t)
+            err = float(abs(a - frac(b)) / a) if a != 0 else (0.0 if b == 0 else float("inf"))
             worst = max(worst, err)
             if err > 4 * 2.0 ** -52:
                 bad += 1
-                first = (line, m, " ".join(fmt(x) for x in rv))
+                first = (line, m, " ".join("nan" if x != x else fmt(x) for x in rv))
                 break
-    ctx.cov.setdefault("correspondence", {})["harmonic-4ulp"] = {"cases": len(hlines), "disagreements": bad, "max_rel_err": worst}
+    ctx.cov.setdefault("correspondence", {})["harmonic-4ulp"] = {"cases": len(hlines), "disagreements": bad, "max_rel_err": worst, "nan_entries_compared": nan_seen}
     if bad:
         ctx.mark("CORR-BROKEN", {"correspondence": "harmonic-4ulp", "request": first[0], "model": first[1], "impl": first[2], "n_diffs": bad})
         ctx.log(f"correspondence harmonic-4ulp: {bad} disagreements, e.g. {first[0][:160]}")
